@@ -2,7 +2,7 @@
 
 // C15: snapshot chunk transfer reassembles exactly or rejects.
 //
-// Sender side: the REAL splitSnapshotMessage + loadChunkData over real snapshot
+// Sender side: the REAL Transport.SendSnapshot (split, job lane, chunk loading) over real snapshot
 // files (written by rsm.NewSnapshotWriter) and the REAL streaming
 // rsm.ChunkWriter; receiver side: the REAL transport.Chunk (NewChunk, Add,
 // Tick) on a fresh in-memory FS per case. Every case is a list of events
@@ -13,15 +13,22 @@ package transport
 
 import (
 	"bytes"
+	"context"
 	"fmt"
 	"io"
+	"runtime"
 	"sort"
 	"strings"
+	"sync/atomic"
 	"testing"
+	"time"
 
+	"github.com/lni/dragonboat/v4/config"
 	"github.com/lni/dragonboat/v4/internal/fileutil"
+	"github.com/lni/dragonboat/v4/internal/registry"
 	"github.com/lni/dragonboat/v4/internal/rsm"
 	"github.com/lni/dragonboat/v4/internal/server"
+	"github.com/lni/dragonboat/v4/internal/settings"
 	"github.com/lni/dragonboat/v4/internal/utils/dio"
 	"github.com/lni/dragonboat/v4/internal/verifkit"
 	"github.com/lni/dragonboat/v4/internal/vfs"
@@ -103,7 +110,7 @@ func c15Wire(c pb.Chunk) pb.Chunk {
 // c15FileBase builds a snapshot (main file through the real SnapshotWriter,
 // external files) on the sender FS and splits it with the real sender code
 // exactly as job.sendChunks does.
-func c15FileBase(fs vfs.IFS, name string, ct pb.CompressionType, payload int, ext []int) c15Base {
+func c15FileBase(fs vfs.IFS, name string, ct pb.CompressionType, payload int, ext []int, firstID uint64) c15Base {
 	dir := fmt.Sprintf("/sender/%s/%s", name, server.GetSnapshotDirName(c15Index))
 	c15Must(fs.MkdirAll(dir, 0755))
 	mainName := server.GetSnapshotFilename(c15Index)
@@ -122,7 +129,7 @@ func c15FileBase(fs vfs.IFS, name string, ct pb.CompressionType, payload int, ex
 		panic("harness: recorded size differs from the file")
 	}
 	for i, sz := range ext {
-		sf := &pb.SnapshotFile{FileId: uint64(i + 1), FileSize: uint64(sz), Metadata: c15Bytes(50+i, 8+i)}
+		sf := &pb.SnapshotFile{FileId: firstID + uint64(i), FileSize: uint64(sz), Metadata: c15Bytes(50+i, 8+i)}
 		sf.Filepath = fs.PathJoin(dir, sf.Filename()) // rsm.Files.PrepareFiles naming
 		content := c15Bytes(10+i, sz)
 		c15WriteFile(fs, sf.Filepath, content)
@@ -130,29 +137,103 @@ func c15FileBase(fs vfs.IFS, name string, ct pb.CompressionType, payload int, ex
 		ss.Files = append(ss.Files, sf)
 	}
 	m := pb.Message{Type: pb.InstallSnapshot, From: c15From, To: c15Replica, ShardID: c15Shard, Snapshot: ss}
-	chunks, err := splitSnapshotMessage(m, fs)
-	c15Must(err)
-	buf := make([]byte, snapshotChunkSize)
-	for _, c := range chunks {
-		c.DeploymentId = c15Did
-		data, err := loadChunkData(c, buf, fs)
-		c15Must(err)
-		c.Data = data
-		b.chunks = append(b.chunks, c15Wire(c))
-	}
+	b.chunks = c15Send(fs, m)
 	return b
+}
+
+// c15Send hands an InstallSnapshot message to a REAL Transport
+// (Transport.SendSnapshot -> splitting, job lane, chunk loading, deployment
+// id) whose network is a recording raftio.ITransport, and returns what the
+// sender put on the wire. Only exported entry points and the plug-in interface
+// are used, so refactorings of the private sender functions do not break the
+// harness.
+func c15Send(fs vfs.IFS, m pb.Message) []pb.Chunk {
+	var out []pb.Chunk
+	h := &c15SendHandler{done: make(chan bool, 8)}
+	c := config.NodeHostConfig{RaftAddress: "c15-sender:1", DeploymentID: c15Did,
+		Expert: config.ExpertConfig{TransportFactory: &c15RecFactory{out: &out}}}
+	env, err := server.NewEnv(c, fs)
+	c15Must(err)
+	nodes := registry.NewNodeRegistry(settings.Soft.StreamConnections, nil)
+	dir := func(shardID uint64, replicaID uint64) string {
+		return fmt.Sprintf("/sender-snapshot-%d-%d", shardID, replicaID)
+	}
+	t, err := NewTransport(c, h, env, nodes, dir, c15Events{}, fs)
+	c15Must(err)
+	nodes.Add(m.ShardID, m.To, "c15-receiver:1")
+	m.Snapshot.Load(c15Compactor{})
+	if !t.SendSnapshot(m) {
+		panic("harness: Transport.SendSnapshot refused the message")
+	}
+	select {
+	case rejected := <-h.done:
+		if rejected {
+			panic("harness: the sender reported a failed transfer over a healthy recording connection")
+		}
+	case <-time.After(300 * time.Second):
+		panic("harness: the sender did not finish")
+	}
+	for i := 0; atomic.LoadUint64(&t.jobs) != 0; i++ {
+		runtime.Gosched()
+		if i > 1<<24 {
+			panic("harness: snapshot job lane did not shut down")
+		}
+	}
+	c15Must(t.Close())
+	c15Must(env.Close())
+	return out
+}
+
+type c15Compactor struct{}
+
+func (c15Compactor) Compact(uint64) error { return nil }
+
+type c15SendHandler struct{ done chan bool }
+
+func (h *c15SendHandler) HandleMessageBatch(pb.MessageBatch) (uint64, uint64) { return 0, 0 }
+func (h *c15SendHandler) HandleUnreachable(uint64, uint64)                    {}
+func (h *c15SendHandler) HandleSnapshotStatus(_ uint64, _ uint64, rejected bool) {
+	h.done <- rejected
+}
+func (h *c15SendHandler) HandleSnapshot(uint64, uint64, uint64) {}
+
+type c15Events struct{}
+
+func (c15Events) ConnectionEstablished(string, bool) {}
+func (c15Events) ConnectionFailed(string, bool)      {}
+
+type c15RecFactory struct{ out *[]pb.Chunk }
+
+func (f *c15RecFactory) Create(config.NodeHostConfig, raftio.MessageHandler, raftio.ChunkHandler) raftio.ITransport {
+	return &c15RecTrans{out: f.out}
+}
+func (f *c15RecFactory) Validate(string) bool { return true }
+
+type c15RecTrans struct{ out *[]pb.Chunk }
+
+func (g *c15RecTrans) Name() string { return "verif-c15-recorder" }
+func (g *c15RecTrans) Start() error { return nil }
+func (g *c15RecTrans) Close() error { return nil }
+func (g *c15RecTrans) GetConnection(context.Context, string) (raftio.IConnection, error) {
+	return nil, fmt.Errorf("no message connections in this harness")
+}
+func (g *c15RecTrans) GetSnapshotConnection(context.Context, string) (raftio.ISnapshotConnection, error) {
+	return &c15RecConn{out: g.out}, nil
+}
+
+type c15RecConn struct{ out *[]pb.Chunk }
+
+func (c *c15RecConn) Close() {}
+func (c *c15RecConn) SendChunk(chunk pb.Chunk) error {
+	*c.out = append(*c.out, c15Wire(chunk))
+	return nil
 }
 
 func c15WitnessBase(fs vfs.IFS) c15Base {
 	m := pb.Message{Type: pb.InstallSnapshot, From: c15From, To: c15Replica, ShardID: c15Shard,
 		Snapshot: pb.Snapshot{Index: c15Index, Term: c15Term, Witness: true}}
-	chunks, err := splitSnapshotMessage(m, fs)
-	c15Must(err)
 	b := c15Base{name: "witness", files: map[string][]byte{}, mainName: "witness.snapshot"}
-	for _, c := range chunks {
-		c.DeploymentId = c15Did
-		b.chunks = append(b.chunks, c15Wire(c))
-	}
+	b.chunks = c15Send(fs, m)
 	b.files[b.mainName] = b.chunks[0].Data
 	return b
 }
@@ -202,11 +283,11 @@ func c15Bases() []c15Base {
 	fs := vfs.NewMemFS()
 	B := c15B
 	return []c15Base{
-		c15FileBase(fs, "main4", pb.NoCompression, 3*B+500, nil),             // 4 chunks, 4 blocks
-		c15FileBase(fs, "main2+ext1+ext2", pb.NoCompression, B+200, []int{700, B + 300}), // 2+1+2 chunks
-		c15FileBase(fs, "main3snappy+ext1", pb.Snappy, 2*B+100, []int{B}),    // 3+1 chunks
-		c15StreamBase("stream5", pb.NoCompression, 2*B+100),                  // hdr+blk0, blk1, blk2, tail, marker
-		c15WitnessBase(fs),                                                   // 1 chunk
+		c15FileBase(fs, "main4", pb.NoCompression, 3*B+500, nil, 1),                         // 4 chunks, 4 blocks
+		c15FileBase(fs, "main2+ext1+ext2", pb.NoCompression, B+200, []int{700, B + 300}, 0), // external file ids 0 and 1 (0 is a legal id) // 2+1+2 chunks
+		c15FileBase(fs, "main3snappy+ext1", pb.Snappy, 2*B+100, []int{B}, 1),                // 3+1 chunks
+		c15StreamBase("stream5", pb.NoCompression, 2*B+100),                                 // hdr+blk0, blk1, blk2, tail, marker
+		c15WitnessBase(fs), // 1 chunk
 	}
 }
 
@@ -223,13 +304,13 @@ type c15Ev struct {
 	Replica uint64 `json:"replica,omitempty"`
 	Shard   uint64 `json:"shard,omitempty"`
 	// corruptions
-	BadDid  bool   `json:"baddid,omitempty"`
-	BadVer  bool   `json:"badver,omitempty"`
-	Flip    bool   `json:"flip,omitempty"`
-	FlipAt  int    `json:"flipat,omitempty"` // 1 = last byte of the chunk, 2 = 12th byte from its end (tail total / last block of the last main-file chunk)
-	Trunc   int    `json:"trunc,omitempty"` // 1 = to half, 2 = to 16 bytes
-	HdrBad  bool   `json:"hdrbad,omitempty"`
-	Path    string `json:"path,omitempty"` // hostile file name
+	BadDid bool   `json:"baddid,omitempty"`
+	BadVer bool   `json:"badver,omitempty"`
+	Flip   bool   `json:"flip,omitempty"`
+	FlipAt int    `json:"flipat,omitempty"` // 1 = last byte of the chunk, 2 = 12th byte from its end (tail total / last block of the last main-file chunk)
+	Trunc  int    `json:"trunc,omitempty"`  // 1 = to half, 2 = to 16 bytes
+	HdrBad bool   `json:"hdrbad,omitempty"`
+	Path   string `json:"path,omitempty"` // hostile file name
 	// tick: number of ticks
 	N int `json:"n,omitempty"`
 }
@@ -391,7 +472,7 @@ type c15MStream struct {
 	from     uint64
 	next     uint64
 	lastTick uint64
-	s        int    // base stream of the first chunk
+	s        int // base stream of the first chunk
 	first    pb.Chunk
 	dirty    string // "" or why the accepted chunks are not the valid sequence
 	hostile  bool   // unjudged: a chunk with a manipulated file name, or another snapshot's chunk under this key+sender, was accepted
@@ -403,16 +484,16 @@ type c15Final struct {
 }
 
 type c15Model struct {
-	bases     []c15Base
-	timeout   uint64
-	gcTick    uint64
-	tick      uint64
-	cur       map[c15MKey]*c15MStream
-	final     map[c15MKey]c15Final
-	either    map[c15MKey]bool   // finalization neither required nor forbidden (hostile names)
-	whyNot    map[c15MKey]string // why the last completed stream of the key must not finalize
-	removed   map[[2]uint64]bool
-	invalid0  map[c15MKey]bool // an invalid first chunk hit a key with a stream in progress
+	bases    []c15Base
+	timeout  uint64
+	gcTick   uint64
+	tick     uint64
+	cur      map[c15MKey]*c15MStream
+	final    map[c15MKey]c15Final
+	either   map[c15MKey]bool   // finalization neither required nor forbidden (hostile names)
+	whyNot   map[c15MKey]string // why the last completed stream of the key must not finalize
+	removed  map[[2]uint64]bool
+	invalid0 map[c15MKey]bool // an invalid first chunk hit a key with a stream in progress
 }
 
 func c15NewModel(bases []c15Base, timeout, gcTick uint64) *c15Model {
